@@ -185,6 +185,32 @@ fn drive_alt_api(bytes: &[u8], api: usize, nvals: usize) -> Result<Vec<AltItem>,
 	Ok(items)
 }
 
+/// I/O fault at read call `i` of a chunked reader, pulled through `deserialize_next` (api 0) or the
+/// `deserialize` iterator re-created after every item (api 1)
+fn drive_alt_fault(bytes: &[u8], sched: &[usize], i: u64, fail_kind: std::io::ErrorKind, api: usize, nvals: usize) -> Result<Vec<AltItem>, String> {
+	use crate::props::c11::AnyOwned;
+	use serde_avro_fast::object_container_file_encoding::Reader;
+	let mut rd = crate::io::ChunkedBufRead::new(bytes, sched.to_vec());
+	rd.fail_at_call = Some(i);
+	rd.fail_kind = fail_kind;
+	let mut r = Reader::from_reader(rd).map_err(|e| e.to_string())?;
+	let mut items: Vec<AltItem> = Vec::new();
+	loop {
+		let x = if api == 0 { r.deserialize_next::<AnyOwned>().map_err(|e| e.to_string()) } else { r.deserialize::<AnyOwned>().next().transpose().map_err(|e| e.to_string()) };
+		match x {
+			Ok(Some(v)) => items.push(AltItem::Val(format!("{:?}", v.0))),
+			Ok(None) => items.push(AltItem::End),
+			Err(e) => items.push(AltItem::Err(e)),
+		}
+		let ends = items.iter().filter(|x| **x == AltItem::End).count();
+		let errs = items.iter().filter(|x| matches!(x, AltItem::Err(_))).count();
+		if ends >= 3 || errs > 18 || items.len() >= nvals + 40 {
+			break;
+		}
+	}
+	Ok(items)
+}
+
 /// judge2's rules over an alternate-API outcome
 fn judge_alt(items: &[AltItem], want: &[String], exp: Expectation, damage_is_truncation_or_io: bool, every_error_is_framing: bool) -> Option<String> {
 	let mut next = 0usize;
@@ -216,7 +242,7 @@ fn judge_alt(items: &[AltItem], want: &[String], exp: Expectation, damage_is_tru
 				if unrecoverable_seen {
 					return Some("error-repeated-after-unrecoverable-error (expected end of stream)".into());
 				}
-				if every_error_is_framing || e.contains("sync marker") || e.contains("Encountered IO error") {
+				if every_error_is_framing || e.contains("injected") || e.contains("sync marker") || e.contains("Encountered IO error") {
 					unrecoverable_seen = true;
 				}
 			}
@@ -609,6 +635,30 @@ pub fn run_case(ctx: &mut Ctx, case_seed: u64) {
 								describe(format!("io::Error of kind {fault_kind:?} injected at read call {i} of {ncalls}"), &kind, Some(&out)),
 							);
 							return;
+						}
+						// the same fault through deserialize_next / the restarted iterator (one reading in four)
+						if rng.below(4) == 0 {
+							if let ReaderKind::Chunked(sched) = &kind {
+								let api = rng.below(2);
+								let api_name = ["deserialize_next(chunked)", "deserialize-iterator-restarted(chunked)"][api];
+								if let Ok(items) = drive_alt_fault(&file, sched, i, fault_kind, api, n) {
+									ctx.count(&format!("alt_api_io_fault_driven:{api_name}"));
+									let want: Vec<String> = vals.iter().map(|v| format!("{:?}", crate::bridge::collect::untyped(&rs, 0, v))).collect();
+									let mut sig = judge_alt(&items, &want, Expectation::PrefixOnly, true, false);
+									if sig.is_none() && !items.iter().any(|x| matches!(x, AltItem::Err(_))) && items.iter().filter(|x| matches!(x, AltItem::Val(_))).count() < n {
+										sig = Some("error-swallowed (values missing, no Err reported)".into());
+									}
+									if let Some(sig) = sig {
+										let shape: Vec<String> = items.iter().map(|x| match x { AltItem::Val(_) => "V".to_owned(), AltItem::End => "END".to_owned(), AltItem::Err(e) => format!("E({})", e.chars().take(80).collect::<String>()) }).collect();
+										ctx.violation(
+											format!("io-fault: {sig} api={api_name}"),
+											case_seed,
+											serde_json::json!({"damage": format!("io::Error of kind {fault_kind:?} injected at read call {i} of {ncalls}"), "schedule": sched, "outcome_shape": shape, "file_hex": crate::refavro::value::hex_full(&file[..file.len().min(4096)])}),
+										);
+										return;
+									}
+								}
+							}
 						}
 						// the fault must not go unnoticed when it hit before the end of the data
 						let nvals = out.items.iter().filter(|x| matches!(x, Item::Val(_))).count();
